@@ -581,10 +581,8 @@ where
         }
 
         // assert rp_id is not part of the public suffix list and is a registerable domain.
-        if decode_host(rp_id)
-            .as_ref()
-            .and_then(|s| self.tld_provider.effective_tld_plus_one(s).ok())
-            .is_none()
+        // The provider works on the ASCII (punycode) form, decoding only checks well-formedness.
+        if decode_host(rp_id).is_none() || self.tld_provider.effective_tld_plus_one(rp_id).is_err()
         {
             return ControlFlow::Break(Err(WebauthnError::InvalidRpId));
         }
@@ -625,10 +623,12 @@ where
             effective_rp_id = rp_id;
         }
 
-        if decode_host(effective_rp_id)
-            .as_ref()
-            .and_then(|s| self.tld_provider.effective_tld_plus_one(s).ok())
-            .is_none()
+        // The provider works on the ASCII (punycode) form, decoding only checks well-formedness.
+        if decode_host(effective_rp_id).is_none()
+            || self
+                .tld_provider
+                .effective_tld_plus_one(effective_rp_id)
+                .is_err()
         {
             return Err(WebauthnError::InvalidRpId);
         }
